@@ -5,6 +5,12 @@ fn main() {
     if args.get(1).map(|s| s.as_str()) == Some("c17-child") {
         std::process::exit(vwincon::c17::child(&args[2..]));
     }
+    if args.get(1).map(|s| s.as_str()) == Some("c17-mt") {
+        std::process::exit(vwincon::c17::child_mt(&args[2..]));
+    }
+    if args.get(1).map(|s| s.as_str()) == Some("c18-lock") {
+        std::process::exit(vwincon::c18::child_lock(&args[2..]));
+    }
     let mut checks = vcore::lean_checks();
     checks.push(vcore::CheckDef { name: "c16", run: c16::run, replay: c16::replay });
     checks.push(vcore::CheckDef { name: "c17", run: vwincon::c17::run, replay: vwincon::c17::replay });
